@@ -25,8 +25,8 @@ RULE = ('Generated panels (2-6 geos quick / 2-7 thorough, plus 8-20 geos greedy-
 ASSUMPTIONS = ['real-valued bounds: a violation needs to exceed the bound by > 1e-9 relative',
                'an unspecified constraint is never read by the oracle']
 EXHAUSTIVE = {'quick': False, 'thorough': False}
-MINIMA = {'quick': {'share_gap_cases': 8, 'near_bound_cases': 50, 'designs_checked': 300, 'distinct_nontrivial': 80, 'on_bound_designs': 20, 'greedy_with_budget': 15},
-          'thorough': {'share_gap_cases': 80, 'near_bound_cases': 500, 'designs_checked': 5000, 'distinct_nontrivial': 1000, 'on_bound_designs': 300, 'greedy_with_budget': 200}}
+MINIMA = {'quick': {'high_level_panels': 20, 'share_gap_cases': 8, 'near_bound_cases': 50, 'designs_checked': 300, 'distinct_nontrivial': 80, 'on_bound_designs': 20, 'greedy_with_budget': 15},
+          'thorough': {'high_level_panels': 250, 'share_gap_cases': 80, 'near_bound_cases': 500, 'designs_checked': 5000, 'distinct_nontrivial': 1000, 'on_bound_designs': 300, 'greedy_with_budget': 200}}
 N = {'quick': 384, 'thorough': 3600}
 N_LARGE = {'quick': 16, 'thorough': 120}
 N_NEAR = {'quick': 96, 'thorough': 900}
@@ -203,11 +203,14 @@ def run_case(spec):
     which_list = ('greedy',)
   else:
     G = r.randrange(2, 7 if tier == 'quick' else 8)
-    case = sl.make_case(r, g, G, focus=focus, elig_mode=r.choice(['none', 'mostly_ctx', 'mixed', 'ctx']))
+    hl = spec['idx'] % 10 == 9
+    case = sl.make_case(r, g, G, focus=('budget' if hl else focus), elig_mode=r.choice(['none', 'mostly_ctx', 'mixed', 'ctx']),
+                        cls=('high_level' if hl else None))
   if r.random() < 0.5:
     case['params']['n_designs'] = 100000
   truth = sl.Truth(case)
   counters = collections.Counter()
+  counters['high_level_panels'] += case['panel']['cls'] == 'high_level'
   violations = []
   outcomes = []
   returned = 0
